@@ -781,6 +781,30 @@ package yang
 //@ init_only Int8Range Int16Range Int32Range Int64Range Uint8Range Uint16Range Uint32Range Uint64Range revisionDateSuffixRegex
 
 // ---------------------------------------------------------------------------
+// C07: augments. Entry.Augment, one pass over the augments collected on e: an
+// augment whose target is found and can have children is merged into it
+// exactly once -- a copy of the augment's own children (oe is the augment
+// entry), no prefix, stamped with the namespace of the augment entry itself,
+// i.e. of the augmenting module -- and counted as processed; a target that is
+// not found is kept for the next pass and counted as skipped; a target that
+// cannot have children is an error, never merged into. What merge then does
+// with its arguments is merge's own contract (fresh copies pointing back at
+// the target, a name that is taken is an error on the target).
+// Partial contract: the calls of Find and Namespace havoc what is known about
+// the trees, their preconditions are assumed.
+//@ func (*Entry).Augment props C07
+//@   only before: loop1/ ensures
+//@   ensures[every-augment-is-either-applied-or-kept] processed + skipped == old(len(e.Augments)) && len(e.Augments) == skipped
+//@   before[into-a-target-that-can-have-children] (*Entry).merge arg0 == target && target != nil && target.Dir != nil
+//@   before[a-copy-of-the-augments-own-children-without-prefix] (*Entry).merge arg1 == nil && arg3 == a
+//@   before[stamped-with-the-namespace-of-the-augment-itself] (*Entry).merge (nsAnchor(a).Parent != nil ==> arg2 == nsAnchor(a).namespace)
+//@            && (nsAnchor(a).Parent == nil && nsAnchor(a).Node != nil && rootOf(nsAnchor(a).Node) != nil && nsOwner(rootOf(nsAnchor(a).Node)) != nil ==> arg2 == nsOwner(rootOf(nsAnchor(a).Node)).Namespace)
+//@   before[not-found-is-reported-only-in-the-final-pass] (*Entry).errorf#1 addErrors && target == nil
+//@   before[a-target-that-cannot-have-children-is-an-error] (*Entry).errorf#2 target != nil && target.Dir == nil
+//@   loop 1
+//@     invariant processed + skipped == _k && len(unapplied) == skipped
+
+// ---------------------------------------------------------------------------
 // C09: type names bind lexically.
 //
 // The typedef dictionary maps (defining node, name) to the typedef; find reads
